@@ -15,6 +15,15 @@ CHECKS = {
         'invariant walked after every step and a graveyard check for removed nodes. Exploration, not proof.',
         'Oracle uses only sym_items/sym_parent/sym_path/sym_get; root-into-own-subtree moves excluded; typed trees are covered under C03.',
         'DESIGN.md section 3 C01'),
+    'C02': (
+        'differential PBT against Python list/dict (Hypothesis op histories + exhaustive slice sub-domain)',
+        'Differential search: the same generated history (full list/dict API incl. slices with every sign/step, in-place '
+        'operators run as statements on a slot, update/|=/setdefault/pop/popitem, rebind extensions) is run on a pg.List/pg.Dict '
+        'without value spec and on a plain list/dict; result, error class, contents and order, len, == and to_json are compared '
+        'after every step. The slice sub-domain (start/stop in {None,-7..7}, step in {None,-3..3}, lengths 0..5, read/assign/delete) '
+        'is enumerated exhaustively in every run. Exploration, not proof.',
+        'Reference = the CPython list/dict of this interpreter; translation table encodes only the documented extensions; NaN excluded.',
+        'DESIGN.md section 3 C02'),
 }
 
 NOT_BUILT = 'check not built yet in this round (planned; see DESIGN.md section 3)'
